@@ -29,6 +29,7 @@ LEVEL_TEXT = (
     "Algebraic invariants of Markov generators/transition matrices are evaluated on every Q and P the real likelihood "
     "function reports across a seeded sweep of models, parameters, lengths and expm settings, and every exponentiator "
     "is compared with scipy on the same matrices, including adversarial (near-defective, badly scaled) ones."
+    " User-built nucleotide predicate models (directed, undirected and named predicates in every order) are rebuilt from their definition; acceptance and Q must not depend on predicate order and whatever is accepted as time-reversible must satisfy detailed balance."
 )
 LEVEL_NOTE = "trusted: numpy/scipy linear algebra. Sampled parameter space; held = held on the matrices listed in the evidence"
 TECHNIQUE = "runtime monitoring: algebraic invariants on observed Q/P matrices + differential check of expm back-ends vs scipy"
